@@ -23,6 +23,13 @@ package vm
 //@   property C15
 //@   ensures[int-cells] isint(a) && isint(b) ==> r == boolv(intof(a) == intof(b))
 //@   ensures[string-cells] isstr(a) && isstr(b) ==> r == boolv(strof(a) == strof(b))
+// nil test behind == / != / in: nil itself, or a nil value of any nillable kind (chan, func, interface, map, pointer, slice)
+//@ func vm.isNil returns r
+//@   pure
+//@   property C01
+//@   ensures[nil] v == nil ==> r
+//@   ensures[nillable] v != nil && rvkind(v) >= 18 && rvkind(v) <= 23 ==> r == rvisnil(v)
+//@   ensures[other] v != nil && !(rvkind(v) >= 18 && rvkind(v) <= 23) ==> !r
 //@ func vm.less returns r
 //@   pure
 //@   panics maybe
